@@ -68,13 +68,43 @@ def reEvent? : Sexp → Option ReEvent
   | .list [j, a, r] => do some { j := (← j.nat?), a := (← op? a), res := (← res? r) }
   | _ => none
 
-/-- the optional 8th field of an observation: `(re p0 f0 (j <advance> <result>)...)` = items the underlying generator
-    of the BODY has yielded / whether it ran off its end after the operation, and the re-entrant attempts made during it -/
-def reLog? : Sexp → Option (Nat × Bool × List ReEvent)
-  | .list [.atom "obs", _, _, _, pos, fin, _] => do some ((← pos.nat?), (← fin.bool?), [])
-  | .list [.atom "obs", _, _, _, _, _, _, .list (.atom "re" :: p0 :: f0 :: evs)] => do
-    some ((← p0.nat?), (← f0.bool?), (← evs.mapM reEvent?))
+/-- optional extra fields of an observation (after `bad`), in any order:
+    `(re p0 f0 (j <advance> <result>)...)` = items the underlying generator of the BODY has yielded / whether it ran off
+    its end after the operation, and the re-entrant attempts made during it;
+    `(inner p f p f ...)` = nested cases: items yielded / ran-off-its-end of every level BELOW the outermost generator,
+    from level nest-1 down to the body (level 0) -/
+def extras : Sexp → List Sexp
+  | .list (.atom "obs" :: _ :: _ :: _ :: _ :: _ :: _ :: ex) => ex
+  | _ => []
+
+def reLog? (x : Sexp) : Option (Nat × Bool × List ReEvent) :=
+  match (extras x).filter (fun e => match e with | .list (.atom "re" :: _) => true | _ => false), x with
+  | [.list (.atom "re" :: p0 :: f0 :: evs)], _ => do some ((← p0.nat?), (← f0.bool?), (← evs.mapM reEvent?))
+  | [], .list (.atom "obs" :: _ :: _ :: _ :: pos :: fin :: _) => do some ((← pos.nat?), (← fin.bool?), [])
+  | _, _ => none
+
+def pairs? : List Sexp → Option (List (Nat × Bool))
+  | [] => some []
+  | p :: f :: r => do some (((← p.nat?), (← f.bool?)) :: (← pairs? r))
   | _ => none
+
+/-- `none` inside = the harness recorded no inner levels for this observation -/
+def innerLog? (x : Sexp) : Option (Option (List (Nat × Bool))) :=
+  match (extras x).filter (fun e => match e with | .list (.atom "inner" :: _) => true | _ => false) with
+  | [.list (.atom "inner" :: r)] => (pairs? r).map some
+  | [] => some none
+  | _ => none
+
+/-- nested generators: how far every level below the outermost one was advanced, against `innerLevels` evaluated at
+    the outermost position `pos`/`fin` of the observation at the same index in `ref` (CORR: the model's run; SPEC: the
+    implementation's own observations).  First failing observation. -/
+def innerCheck (b0 : Body) (k : Nat) : List Obs → List (Option (List (Nat × Bool))) → Nat → Option (Nat × String)
+  | o :: os, some l :: ls, i =>
+    let e := innerLevels b0 k o.pos o.fin
+    if l == e then innerCheck b0 k os ls (i + 1)
+    else some (i, s!"levels below the outermost (pulled, finished), from level {k - 1} down to the body: expected {repr e} observed {repr l}")
+  | _ :: os, none :: ls, i => innerCheck b0 k os ls (i + 1)
+  | _, _, _ => none
 
 def firstDiff (a b : List Obs) (i : Nat := 0) : Option (Nat × String) :=
   match a, b with
@@ -84,8 +114,8 @@ def firstDiff (a b : List Obs) (i : Nat := 0) : Option (Nat × String) :=
   | [], y :: _ => some (i, s!"model=<missing> impl={repr y}")
 
 def handle (id : Nat) (hdr : List Sexp) (body : List Sexp) : String :=
-  match header? hdr, body.mapM obs?, body.mapM reLog? with
-  | some (b0, k, annot), some impl, some relog =>
+  match header? hdr, body.mapM obs?, body.mapM reLog?, body.mapM innerLog? with
+  | some (b0, k, annot), some impl, some relog, some inner =>
     let b := wrapN k b0
     let ops := impl.map (·.op)
     let model := run (init b) ops
@@ -101,15 +131,29 @@ def handle (id : Nat) (hdr : List Sexp) (body : List Sexp) : String :=
     let noRe := annot.isEmpty && relog.all (fun x => x.2.2.isEmpty)
     let reCorr := if noRe then none else reenterRun true b0 annot 0 false relog     -- the code as it exists
     let reSpec := if noRe then none else reenterRun false b0 annot 0 false relog    -- what C17 demands
-    let spec := if spec0 != "ok" then spec0 else (match reSpec with | none => "ok" | some c => c)
-    let c := match corr, reCorr with | none, none => "ok" | _, _ => "diff"
+    -- nested generators: "without consuming more of the generator than needed" also for the INNER generators: the
+    -- documented loop run over the model of the inner generator (`outerResume`, the machine `C17_nested_loop` is about)
+    -- says how far every level below has been advanced (`innerLevels`; direct evaluation, no theorem)
+    let inCorr := if k == 0 then none else innerCheck b0 k model inner 0
+    let inSpec := if k == 0 then none else innerCheck b0 k impl inner 0
+    let spec := if spec0 != "ok" then spec0 else
+      (match reSpec with
+        | some c => c
+        | none => (match inSpec with
+          | none => "ok"
+          | some (i, _) => "nested-inner-consumed@" ++ (match impl[i]? with | some o => o.op.name | none => "?")))
+    let c := match corr, reCorr, inCorr with | none, none, none => "ok" | _, _, _ => "diff"
     let d := (match corr with | none => "" | some (i, s) => (s!"obs {i}: {s}".replace "\n" " ")) ++
       (match reCorr with
         | none => ""
         | some c => s!" re-entrant advance from the body: {c} (log {repr (relog.map (·.2.2))})".replace "\n" " ") ++
+      (match inCorr, inSpec with
+        | some (i, s), _ => s!" nested, obs {i}: {s}".replace "\n" " "
+        | none, some (i, s) => s!" nested (own position), obs {i}: {s}".replace "\n" " "
+        | none, none => "") ++
       (if judged then "" else " [marker payload: outside C17, judged by correspondence + end-marker/await-result]")
     let f (s : String) := if s == "ok" then "ok" else "fail:" ++ s
     s!"R {id} CORR={c} SPEC={f spec} SPECM={f specm} | {d}"
-  | _, _, _ => s!"R {id} CORR=diff SPEC=ok SPECM=ok | unparsable case"
+  | _, _, _, _ => s!"R {id} CORR=diff SPEC=ok SPECM=ok | unparsable case"
 
 end AsynqModel.Drv.Generator
